@@ -491,6 +491,26 @@ def u4_fail_arm_forwards(C, rep, rid):
                 rep.ob(rid, False, L.fn, "fail arm response kind", where=c.loc, detail="fail arm answers with %s" % x[0])
 
 
+def t6_timer_armed_once(C, rep, rid):
+    rep.rule(rid, "the MPP timer is armed once per lifecycle: the sleep future raced in the pre-payment select is not created inside a loop")
+    L = C.L
+    b = L.body
+    sel = _main_select(C)
+    rep.anchor(rid, "pre-payment select", 1 if sel else 0, fn=L.fn)
+    if not sel:
+        return
+    sl = [f for f in sel.futures if f is not None and f.name == "tokio::time::sleep"]
+    rep.anchor(rid, "tokio::time::sleep operand of the select", len(sl), 1, fn=L.fn)
+    for s in sl:
+        again = s.bb in b.reach_after([s.bb])
+        rep.ob(rid, not again, L.fn, "sleep future created outside any loop", where=s.loc, how="its block is not reachable from itself",
+               detail="" if not again else "the MPP timer is re-created on every iteration of a loop: each wake-up (e.g. a late partial HTLC) restarts the full timeout, so an incomplete set can be held beyond one MPP timeout")
+    # no other timer can take its place
+    others = [c for c in b.calls if c.name in ("tokio::time::sleep", "tokio::time::timeout", "tokio::time::sleep_until", "tokio::time::interval") and not c.noise and c.bb not in [s.bb for s in sl]
+              and c.bb in b.reach([0], removed_nodes=[x.bb for x in L.pay])]
+    rep.ob(rid, not others, L.fn, "no second timer before the payment", where=others[0].loc if others else "", how="single timer", detail="" if not others else "another timer (%s) runs before the payment" % others[0].name, nontrivial=False)
+
+
 def t1_timer_value(C, rep, rid):
     rep.rule(rid, "the select's timer is the configured MPP timeout (Free) or that timeout minus the attempt's age (Pending), never more")
     L = C.L
